@@ -87,6 +87,7 @@ def run(prog, chk):
         "compile_variable rebinds the document to deepcopyExceptFonts() before anything writes to it (R07.4)",
         "rememberCurveType is only ever passed as a conjunction with inplace (R07.5)",
         "nothing writes into a designspace source's location dictionary (the instantiator shares them with the caller's document) (R07.8)",
+        "what getAttrWithFallback returns is the font info's own object: it is never modified in place (R07.9, shared with C16)",
         "assumptions of the analysis are themselves checked: filters are always called with a glyph set; reviewed exemptions still match the code (R07.7)",
     ]
     chk.not_decided += ["mutation inside third-party callees other than the listed ones", "equality of values (only writes are tracked)"]
@@ -133,6 +134,8 @@ def run(prog, chk):
     chk.guard(r075, prog, chk)
     chk.guard(r077, prog, chk, o)
     chk.guard(r078, prog, chk)
+    from .c16 import r167
+    chk.guard(r167, prog, chk, "R07.9")
 
 
 # ----------------------------------------------------------------------------- R07.2
